@@ -366,3 +366,77 @@ class MachineIterStep:
     def ensures_listed_exactly_when_a_working_chip(self, x, y, _yielded):
         ok = 0 <= x < self.width and 0 <= y < self.height and (x, y) not in self.dead_chips
         return implies(ok, len(_yielded) == 1 and _yielded[0] == (x, y)) and implies(not ok, len(_yielded) == 0)
+
+
+# ---- route(): one net - which tree is built, whether it is repaired, under which net it is filed (fragment: the body of the loop over nets)
+def _ner_net_rec(E, args, kwargs, st, node):
+    s = st.copy()
+    s.trace = _ListV(s.trace.items + (("ner_net",) + tuple(args),))
+    return [(s, (ObjV("RoutingTree", {"ident": 101}), ObjV("NodeLookup", {"ident": 102})))]
+
+
+def _has_dead_rec(E, args, kwargs, st, node):
+    s = st.copy()
+    s.trace = _ListV(s.trace.items + (("uses_dead_hardware?", args[0].fields["ident"], args[1].fields["ident"]),))
+    return [(s, st.env["g_dead"])]
+
+
+def _avoid_rec(E, args, kwargs, st, node):
+    s = st.copy()
+    s.trace = _ListV(s.trace.items + (("repair", args[0].fields["ident"], args[1].fields["ident"], args[2]),))
+    return [(s, (ObjV("RoutingTree", {"ident": 201}), ObjV("NodeLookup", {"ident": 202})))]
+
+
+def _lookup_get_id(E, obj, args, kwargs, st, node):
+    s = st.copy()
+    s.trace = _ListV(s.trace.items + (("node_of", obj.fields["ident"], args[0]),))
+    return [(s, ObjV("RoutingTree", {"ident": 5, "children": ObjV("Leaves", {})}), None)]
+
+
+def _routes_set(E, obj, args, kwargs, st, node):
+    s = st.copy()
+    s.trace = _ListV(s.trace.items + (("filed", args[0].fields["ident"], args[1].fields["ident"]),))
+    return [(s, _NONE, obj)]
+
+
+@contract("rig/place_and_route/route/ner.py::route@forbody:1")
+class RouteOneNet:
+    """one net (here with one sink): the tree is built - for a perfect machine of THIS machine's width, height and wrap-around, with
+    the radius given - from the chip the net's SOURCE is placed on to the chips its SINKS are placed on; it is tested against this
+    machine and, exactly when the test says it uses dead hardware, replaced by the repaired tree (made from the tree just built, for
+    this machine); the sink's leaves are hung on the node the tree FINALLY used holds for the sink's chip; and that final tree is
+    filed under this net"""
+    properties = ("C03", "C01")
+    params = dict(net=TRec("Net", ident=TInt(0, 99), source=TInt(), sinks=TList(TInt())), placements=TRec("Placements"),
+                  machine=TRec("Machine", ident=TInt(0, 9), width=TInt(1, 256), height=TInt(1, 256)), wrap_around=TBool(), radius=TInt(0, 100),
+                  route_to_endpoint=TRec("Endpoints"), allocations=TRec("Allocations"), core_resource=TInt(), routes=TRec("Routes"),
+                  g_chip=T2, g_constrained=TBool(), g_route=TInt(0, 23), g_cores=CORES, g_dead=TBool())
+    fragment_result = ()
+    fragment_head = "for net in nets:"
+    externals = {"Placements.__getitem__": _placement_of, "NodeLookup.__getitem__": _lookup_get_id, "Endpoints.__contains__": _endpoint_has,
+                 "Endpoints.__getitem__": _endpoint_get, "Allocations.get": _alloc_get, "VertexAlloc.get": _valloc_get, "Leaves.append": _leaf_add,
+                 "def:ner_net": _ner_net_rec, "def:route_has_dead_links": _has_dead_rec, "def:avoid_dead_links": _avoid_rec,
+                 "Routes.__setitem__": _routes_set}
+    loop_unroll = {1: 2, 2: 4}
+    options = {"int_class": "rig/routing_table/entries.py::Routes", "no_merge": True}
+    assumptions = ["ner_net, route_has_dead_links (own contract) and avoid_dead_links are opaque and recorded; placements, the trees' chip lookup, the "
+                   "endpoint table and the allocations as in RouteSinkLeaves; one sink, at most 4 allocated cores"]
+
+    def native(x):
+        raise __import__("pyvc.replay", fromlist=["OutsideHarness"]).OutsideHarness()
+
+    def requires(g_cores):
+        return g_cores is None or unopt3(g_cores).stop - unopt3(g_cores).start <= 4
+
+    def ensures_built_for_this_net_on_this_machine_repaired_iff_needed_and_filed_under_this_net(net, machine, wrap_around, radius, g_chip, g_dead, _trace):
+        key = [t for t in _trace if t[0] in ("ner_net", "uses_dead_hardware?", "repair", "filed")]
+        nodes = [t for t in _trace if t[0] == "node_of"]
+        final = 201 if g_dead else 101
+        return (_trace[0] == ("placement_of", net.source) and _trace[1] == ("placement_of", net.sinks[0])
+                and len(key) == (4 if g_dead else 3)
+                and key[0][0] == "ner_net" and key[0][1] == g_chip and len(key[0][2]) == 1 and g_chip in key[0][2]
+                and key[0][3:] == (machine.width, machine.height, wrap_around, radius)
+                and key[1] == ("uses_dead_hardware?", 101, machine.ident)
+                and implies(g_dead, key[2] == ("repair", 101, machine.ident, wrap_around))
+                and key[len(key) - 1] == ("filed", net.ident, final)
+                and len(nodes) == 1 and nodes[0][1] == final + 1)
